@@ -253,6 +253,18 @@ class SymEnv(_EnvBase):
     def ite(self, c, a, b):
         return sym_ite(c, a, b)
 
+    def preempt(self, op_a, op_b, max_points=4000):
+        """run operation A with operation B scheduled at ONE of A's yield points; which one is the solver variable
+        'preempt_at' (0: B runs after A).  Returns (result A, result B), each a value or Raised."""
+        from . import instrument
+        import z3 as _z3
+        v = _z3.Int("preempt_at")            # occurs in no constraint but the scheduler's own (k == n) choices
+        self.ctx.inputs.append(("preempt_at", "int", (v, True)))
+        k = SxInt(v, 0, max_points)
+        ra, rb, n = instrument.run_preempted(k, lambda: self.run(op_a), lambda: self.run(op_b))
+        self.note("yield_points", n)
+        return ra, rb
+
 
 class CheckFailed(Exception):
     pass
@@ -388,6 +400,51 @@ class ConcEnv(_EnvBase):
 
     def ite(self, c, a, b):
         return a if c else b
+
+    def preempt(self, op_a, op_b, max_points=4000):
+        """native counterpart: A and B run on two real threads; A is suspended at the j-th 'line' event inside the
+        repository (j = witness '_native_preempt', 0: no pre-emption), B runs to completion, A resumes."""
+        import threading
+        import sys as _sys
+        j = int(self.w.get("_native_preempt", 0))
+        repo = os.path.join(os.environ.get("VERIF_REPO", "/repo"), "")
+        go_b, b_done = threading.Event(), threading.Event()
+        box = {}
+        state = {"n": 0, "fired": False}
+
+        def tracer(frame, event, arg):
+            if not frame.f_code.co_filename.startswith(repo):
+                return None
+            if event == "line":
+                state["n"] += 1
+                if state["n"] == j and not state["fired"]:
+                    state["fired"] = True
+                    go_b.set()
+                    b_done.wait()
+            return tracer
+
+        def run_a():
+            if j or self.w.get("_count_points"):
+                _sys.settrace(tracer)
+            try:
+                box["a"] = self.run(op_a)
+            finally:
+                _sys.settrace(None)
+
+        def run_b():
+            go_b.wait()
+            box["b"] = self.run(op_b)
+            b_done.set()
+        ta, tb = threading.Thread(target=run_a), threading.Thread(target=run_b)
+        ta.start()
+        tb.start()
+        ta.join()
+        if not state["fired"]:
+            go_b.set()
+        tb.join()
+        self.preempt_points = state["n"]
+        self.preempt_fired = state["fired"]
+        return box.get("a"), box.get("b")
 
 
 from .values import eq_term as _eq_term
